@@ -202,13 +202,24 @@ def run_probe(world, ws, pidx, finalise_late=None):
         d = {k: getattr(x, k) for k in ('reason', 'graceful', 'text', 'data', 'code', 'error', 'critical', 'protocol') if hasattr(x, k)}
         if x.name in ('ready', 'rejected'):
             d['response'] = (x.response.status_code, x.response.http_ver)
+        if hasattr(x, 'extensions'):
+            d['extensions'] = sorted(x.extensions)
         evs.append((x.name, round(ev.t - t_start, 6), repr(sorted(d.items()))))
     wire = b''.join(w.data for w in world.writes if w.conn >= n0_conns)
     req, rest = ref_ws.split_http_request(wire)
     frames_out, garbage = ref_ws.decode_client_stream(rest)
-    return {'events': evs, 'frames': [(f.opcode, f.rsv1, f.payload) for f in frames_out], 'garbage': garbage,
+    # what the application can ask the object after the connection has ended
+    public = tuple((k, _public(ws, k)) for k in ('is_closing', 'is_closed', 'is_active', 'supports_compression', 'sent_close_time'))
+    return {'events': evs, 'frames': [(f.opcode, f.rsv1, f.payload) for f in frames_out], 'garbage': garbage, 'public': public,
             'escaped': repr(run.escaped) if run.escaped else None, 'horizon': run.horizon, 'snap': snap, 'key': key,
             'request_key': W.request_key(req)}
+
+
+def _public(ws, name):
+    try:
+        return repr(getattr(ws, name))
+    except Exception as error:  # noqa
+        return 'raises %s' % type(error).__name__
 
 
 _FRESH = {}
@@ -324,7 +335,7 @@ class C17(F.Check):
         if obs['request_key'] != obs['key']:
             problems.append(('key-mismatch', 'request carries %r, object reports %r' % (obs['request_key'], obs['key'])))
         # ---- O2: behaviour
-        for field in ('events', 'frames', 'garbage', 'escaped', 'horizon'):
+        for field in ('events', 'frames', 'garbage', 'escaped', 'horizon', 'public'):
             if obs[field] != ref[field]:
                 problems.append(('%s-differ' % field, 'probe %s after history %s: %s = %s, a fresh object gives %s' % (
                     probe_scripts()[pidx][0], env.trace[-8:], field, _s(obs[field]), _s(ref[field]))))
